@@ -13,6 +13,41 @@ Lemma gen_setup :
   finish_frame_is_grease = true /\ finish_clears_flag = true /\ shutdown_frame_is_goaway = true /\ shutdown_skip_cmp = 0.
 Proof. repeat split; reflexivity. Qed.
 
+(* CLOSED WORLD.  The writer automaton of Model/Writers.v has one transition for each call below and no other: these are
+   ALL the places in the non-test sources of h3/src where bytes or a FIN are handed to a send stream (census regenerated
+   from the working tree on every run: file | enclosing fn | callee | argument heads).  stream.rs / frame.rs rows are the
+   plumbing (stream::write itself, the SendStream forwarding impls of BufRecvStream / FrameStream, the unframed
+   AsyncWrite adapters used by WebTransport); the others are the sites the automaton models.  A new or changed site
+   changes Gen.write_sites and breaks this lemma. *)
+Definition expected_write_sites : list N := [
+  236276700556432 (* connection.rs|send_control_stream_headers|stream::write|&mutself.control_send,WriteBuf::from(UniStreamHeader::Control(sett *);
+  243471427161725 (* connection.rs|send_control_stream_headers|stream::write|stream,WriteBuf::from(UniStreamHeader::Decoder) *);
+  218385777245949 (* connection.rs|send_control_stream_headers|stream::write|stream,WriteBuf::from(UniStreamHeader::Encoder) *);
+  278248340835223 (* connection.rs|shutdown|stream::write|&mutself.control_send,Frame::Goaway(max_id.into()) *);
+  93190795814898 (* connection.rs|poll_grease_stream|.send_data|(StreamType::grease(),Frame::Grease) *);
+  184104172257312 (* connection.rs|poll_grease_stream|.poll_finish|cx *);
+  141954617144699 (* connection.rs|send_data|stream::write|&mutself.stream,frame *);
+  84635067732679 (* connection.rs|send_trailers|stream::write|&mutself.stream,Frame::Headers(block.freeze()) *);
+  196592677318858 (* connection.rs|finish|stream::write|&mutself.stream,Frame::Grease *);
+  125673138829854 (* connection.rs|finish|.poll_finish|cx *);
+  126527542322560 (* frame.rs|send_data|.send_data|data *);
+  217973562043755 (* frame.rs|poll_finish|.poll_finish|cx *);
+  221042019067478 (* stream.rs|write|.send_data|data *);
+  609140036848 (* stream.rs|poll_finish|.poll_finish|cx *);
+  119699821529641 (* stream.rs|send_data|.send_data|data *);
+  53526287060569 (* stream.rs|poll_send|.poll_send|cx,buf *);
+  247172877697666 (* stream.rs|poll_write|.poll_send|cx,&mutbuf *);
+  15064168258662 (* stream.rs|poll_close|.poll_finish|cx *);
+  247172877697666 (* stream.rs|poll_write|.poll_send|cx,&mutbuf *);
+  204659356846110 (* stream.rs|poll_shutdown|.poll_finish|cx *);
+  180917363914306 (* client/connection.rs|send_request|stream::write|&mutstream,Frame::Headers(block.freeze()) *);
+  214293468459282 (* client/stream.rs|send_data|.send_data|buf *);
+  33325421543922 (* server/stream.rs|send_response|stream::write|&mutself.inner.stream,Frame::Headers(block.freeze()) *);
+  185634815566812 (* server/stream.rs|send_data|.send_data|buf *)
+].
+Lemma gen_write_sites : write_sites = expected_write_sites.
+Proof. reflexivity. Qed.
+
 (* the inserts of TryFrom<Config>: every fixed identifier is a registered HTTP/3 setting and not an HTTP/2-only one *)
 Definition ins_okb (i : option N * N) : bool :=
   match fst i with
@@ -595,7 +630,7 @@ Proof.
     destruct Ho as [Hgs Hgf]. cbn [step]. destruct (c_conn_error c); [exists c; auto|].
     destruct f as [|id| | |].
     + destruct (c_got_settings c); [eexists; split; [reflexivity|apply set_conn_error_ok; exact Hc]|].
-      apply grease_poll_ok; auto. apply (cinv_fields c); auto.
+      apply grease_poll_ok; auto; apply (cinv_fields c); auto.
     + destruct (c_got_settings c); cbn [negb]; [|eexists; split; [reflexivity|apply set_conn_error_ok; exact Hc]].
       destruct (grease_poll_ok c gs gf acc Hc Hgs Hgf) as (c1 & E1 & Hc1). rewrite E1.
       destruct (negb (c_server c1) && negb (sid_is_request id)).
